@@ -221,7 +221,7 @@ def r18_8(chk, facts):
 def r18_6(chk, facts):
     """Type inference applies to unquoted fields only."""
     chk.rule('R18.6', 'CSV type inference: every end_value() of end_quoted_string_value passes infer_types = false (a quoted field stays a string), '
-                      'every end_value() of end_unquoted_string_value passes the infer_types_ option', floor=8)
+                      'every end_value() of end_unquoted_string_value passes the infer_types_ option', floor=4)
     n = 0
     for fname, want in (('end_quoted_string_value', 'false'), ('end_unquoted_string_value', 'infer_types_')):
         fns = [f for f in U.functions(facts, cls='basic_csv_parser', name=fname) if f.get('body') is not None]
@@ -249,7 +249,7 @@ def r18_6(chk, facts):
                 if got == want: chk.ok('R18.6', site, {'argument': got})
                 else: chk.fail('R18.6', site, fn['file'], call.get('l'), '%s passes infer_types = %s to end_value(); %s' % (
                     fname, got, 'a quoted field would be turned into a number/boolean/null and no longer round-trip as a string' if want == 'false' else 'unquoted fields follow the infer_types option'), None, fn['q'])
-    chk.require(n >= 8, 'R18.6: only %d end_value calls found' % n)
+    chk.require(n >= 4, 'R18.6: only %d end_value calls found' % n)
 
 # ---------------------------------------------------------------------------------------------------------------- TOON
 def char_loop(fn):
